@@ -172,14 +172,28 @@ def split_authority(a):
 WELL_KNOWN_PORTS = {'http': '80', 'https': '443', 'ftp': '21', 'ws': '80', 'wss': '443'}
 
 
+_UNRESERVED = 'ABCDEFGHIJKLMNOPQRSTUVWXYZabcdefghijklmnopqrstuvwxyz0123456789-._~'
+
+
+def pct_norm(text):
+    """RFC 3986 6.2.2.1 / 6.2.2.2: a percent-encoded UNRESERVED character is the same as the character itself,
+    and the hex digits of an escape are case-insensitive (escapes of reserved characters are kept: they are not
+    equivalent to the bare character)"""
+    def repl(m):
+        ch = chr(int(m.group(1), 16))
+        return ch if ch in _UNRESERVED else '%' + m.group(1).upper()
+    return re.sub(r'%([0-9A-Fa-f]{2})', repl, text)
+
+
 def canon(text):
     """the identifications the property statement allows when comparing two URI texts:
        * an empty path under an authority is the same as '/'            (stated in the property)
        * scheme and host are case-insensitive (RFC 3986 6.2.2.1; 'normalized result'); an empty or
          well-known default port is the same as none (6.2.3)
        * a present-but-empty query / fragment is the same as an absent one (boltons' URL object
-         cannot represent the difference; DESIGN section 6 C07 'Limits')"""
-    s, a, p, q, f = rfc_parse(text)
+         cannot represent the difference; DESIGN section 6 C07 'Limits')
+       * percent-encoded unreserved characters / lower-case escape digits (RFC 3986 6.2.2.1-2, `pct_norm`)"""
+    s, a, p, q, f = rfc_parse(pct_norm(text))
     if s is not None:
         s = s.lower()
     if a is not None:
@@ -245,6 +259,7 @@ QUERIES = [None, '', 'y=1']
 # case only, have an empty key, are exact duplicates, or are many
 MULTI_QUERIES = ['k=1&k=2', 'tag=x&page=2&tag=y', 'b=2&a=1', 'k&k', 'k=&k', 'k&k=', 'id=1&id=2&id=3',
                  'z=1&y=2&z=3&y=4', 'k=', 'a=1&a=1', 'K=1&k=2', '=v', 'k=v&=w&k=u&=x',
+                 'next=/x/../y?z:1@w&k', "?k=?&a/b=(c,d)*!$'",
                  '&'.join('p%d=%d' % (i % 7, i) for i in range(40))]
 # query texts that are not '&'-joined non-empty pairs: ';' separators, empty pairs, separators only
 NONCANON_QUERIES = ['a=1;b=2', '&a=1', 'a=1&&b=2', 'a=1&', '&', ';', 'a=1;a=2', '&;&', 'k;k=;k']
@@ -330,7 +345,8 @@ def in_model_domain(c):
         # empty before '='), keys and values of characters that are neither quoted nor unquoted
         for pair in re.split('[&;]', c['query']):
             k, eq, v = pair.partition('=')
-            if not re.match(r'^[A-Za-z0-9._~-]*$', k) or not re.match(r'^[A-Za-z0-9._~-]*$', v):
+            # (boltons' _QUERY_SAFE: unreserved, the sub-delims except & = + ; and : @ / ?)
+            if not re.match(r"^[A-Za-z0-9._~!$'()*,:@/?-]*$", k) or not re.match(r"^[A-Za-z0-9._~!$'()*,:@/?-]*$", v):
                 return False
     if c['frag'] is not None and not re.match(r'^[A-Za-z0-9._~/?:@-]*$', c['frag']):
         return False
@@ -382,7 +398,8 @@ class C07(Property):
     ASSUMPTIONS = [
         'components are drawn from characters whose parse/unquote/quote/IDNA handling is the identity (no %, no '
         'delimiter inside a component, ASCII LDH hosts, non-default non-zero ports, queries of key / key= / '
-        'key=value pairs separated by & or ;): quoting and parsing are property C06',
+        'key=value pairs separated by & or ;, keys and values over unreserved characters and ! $ \' ( ) * , : @ / ?): '
+        'quoting and parsing are property C06',
         'a query text that is not a plain &-joined list of non-empty pairs (; separators, empty pairs) is compared '
         'with the RFC target as a parameter list (pairs in order, empty pairs dropped), because a URL object stores '
         'parameters, not the query text; every other query is compared verbatim',
@@ -411,7 +428,29 @@ class C07(Property):
         src.append('def noNetlocSchemes : List String := [')
         src.append(',\n'.join('  "%s"' % k for k in nonet) + ']')
         src.append('end C07.Gen')
-        return {'C07_Schemes.lean': '\n'.join(src) + '\n'}
+        nav = ['/- GENERATED by harness/bv/props/c07.py (regen) by evaluating boltons.urlutils.URL.navigate of the tree '
+               'under test\n   on the probes of known finding C07-empty-query - do not edit -/',
+               'namespace C07.Gen',
+               '/-- does `navigate` let a present-but-empty query of the reference (`?`, `?#s`) replace the base query? -/',
+               'def navHonoursEmptyQuery : Bool := %s' % ('true' if self.nav_honours_empty_query() else 'false'),
+               'end C07.Gen']
+        return {'C07_Schemes.lean': '\n'.join(src) + '\n', 'C07_Nav.lean': '\n'.join(nav) + '\n'}
+
+    @staticmethod
+    def nav_honours_empty_query():
+        """which of the two modelled versions of URL.navigate the tree under test has (C07.Gen.navHonoursEmptyQuery):
+        decided by evaluating it on the probes of known finding C07-empty-query; the answers must be unanimous"""
+        from boltons.urlutils import URL
+        votes = set()
+        for base in ('http://a/b?q=1', 'https://h.example?k=1&k=2'):
+            for ref in ('?', '?#s'):
+                for as_obj in (False, True):
+                    with time_limit(10):
+                        got = URL(base).navigate(URL(ref) if as_obj else ref)
+                    votes.add(not got.query_params)
+        if len(votes) != 1:
+            raise ValueError('URL.navigate treats a present-but-empty query inconsistently across the probes')
+        return votes.pop()
 
     def extra_checks(self):
         """the generated tables, as the compiled driver sees them, against the live module objects"""
@@ -422,9 +461,22 @@ class C07(Property):
             return []
         out = d.query(['tables'])[0]
         want = 'P ' + ','.join('%s:%d' % (k, v or 0) for k, v in sorted(urlutils.SCHEME_PORT_MAP.items())) + \
-               ' N ' + ','.join(sorted(urlutils.NO_NETLOC_SCHEMES))
+               ' N ' + ','.join(sorted(urlutils.NO_NETLOC_SCHEMES)) + \
+               ' Q ' + ('1' if self.nav_honours_empty_query() else '0')
+        self.stats['navigate_version'] = 'repaired (35ff68e)' if want.endswith('1') else 'unrepaired'
         if out != want:
             raise InfraError('generated scheme tables differ from the live module: %r vs %r' % (out[:200], want[:200]))
+        # the desugaring pre-pass of the source translator (harness/py2lean_prepass.py): rewritten functions
+        # against the originals in CPython, and the refusal cases
+        import py2lean_prepass_selftest
+        n_pp, problems = py2lean_prepass_selftest.run()
+        if problems:
+            raise InfraError('py2lean_prepass self-test: ' + '; '.join(problems[:3]))
+        self.stats['prepass_selftest_comparisons'] = n_pp
+        # reference TEXTS: the Lean Appendix-B parser (Spec.rfcParse) against the oracle's regex, and the model's
+        # `URL(text)` (Model.refOfText / URL.ofText) against the real URL(text), on every small reference text
+        # and a list of texts with repeated / misplaced delimiters
+        out = self.parse_family(d)
         # the oracle itself against the RFC's own table of examples (section 5.4), kept in the corpus
         for c in self.corpus():
             if 'rfc_expect' in c:
@@ -432,7 +484,63 @@ class C07(Property):
                 if got != c['rfc_expect']:
                     raise InfraError('oracle disagrees with RFC 3986 5.4: %r -> %r, RFC says %r' % (
                         compose(c['refs'][0]), got, c['rfc_expect']))
-        return []
+        return out
+
+    TRICKY_TEXTS = ['', '?', '#', '?#', '#?', '??', '##', 'a?b?c', 'a#b#c', 'a#b?c', 'a?b#c?d#e', '?a#', '/?#', '/.?.#.',
+                    'a/b?c/d#e/f', '?k=1&k=2#s', '?;', '?&#', './a:b', 'a/b:c', ':', 'a:', 'a:b', ':a', '/:a', '?a:b',
+                    '#a:b', '//h/p', '//h', '//', '///p', '/p//q', 'http://u@h:1/p?q#f', 'urn:x/y?z', 'x-y.z:a#b',
+                    'g;x=1/./y', '?a?b', 'a?b?c#d', '?k=v?w&j', '?=', '?=v&k==w', '?a=b=c', "?!$'()*,:@/", "#!$&'()*,;=:@/?", '..', '.', '../', '/..', 'a//b', '?y=1;z=2', '1:2', '+:x', 'a+b:c']
+
+    def parse_family(self, driver):
+        from boltons.urlutils import URL
+        from bv.common import InfraError
+        texts = list(self.TRICKY_TEXTS)
+        for path in sorted(set(self.exhaustive_refs(3, SEGS_SMALL))):
+            for q in QUERIES + ['k=1&k=2', 'a=1;b']:
+                for f in FRAGS + ['x?y#z']:
+                    texts.append(compose(compact({'path': path, 'query': q, 'frag': f})))
+        texts = sorted(set(texts))
+        outs = driver.query(['parse ' + hx(t) for t in texts])
+
+        def o(x):
+            return 'N' if x is None else hx(x)
+        bad = []
+        n_rel = 0
+        for t, out in zip(texts, outs):
+            comps, _, obj = out.partition(' ')
+            obj = obj.strip()
+            sc, au, pa, qu, fr = rfc_parse(t)
+            want = ','.join([o(sc), o(au), hx(pa), o(qu), o(fr)])
+            if comps != want:
+                raise InfraError('Spec.rfcParse and the oracle regex disagree on %r: %s vs %s' % (t, comps, want))
+            if sc is not None or au is not None:
+                if obj != '-':
+                    raise InfraError('driver parsed %r as a relative reference' % t)
+                continue
+            c = {'path': pa, 'query': qu, 'frag': fr}
+            if '%' in t or '+' in t or not all(32 < ord(ch) < 127 for ch in t):
+                continue        # percent-decoding / '+' / IDNA are property C06's business
+            n_rel += 1
+            try:
+                with time_limit(10):
+                    u = URL(t)
+                    if u.scheme or u.host or u.username or u.password or u.port:
+                        got = 'unexpected scheme/authority: ' + repr(self.dump(u))
+                    else:
+                        got = 'P' + '/'.join(hx(p) for p in u.path_parts) + \
+                              ' Q' + '&'.join(hx(k) + ('' if v is None else '=' + hx(v))
+                                              for k, v in u.query_params.iteritems(multi=True)) + \
+                              ' F' + hx(u.fragment)
+            except Exception as e:       # noqa: BLE001
+                got = 'X' + exc_name(e)
+            if got != obj:
+                f = Failure('parse_mismatch', 'URL(%r) has path segments / query items / fragment %s, the model '
+                            '(refOfText: fragment from the first #, query from the first ? before it) says %s' % (
+                                t, got, obj))
+                bad.append(({'base': BASES[0], 'refs': [compact(c)], 'as_url': 0}, f))
+        self.stats['reference_texts_parsed'] = len(texts)
+        self.stats['reference_texts_relative_in_domain'] = n_rel
+        return bad[:1]
 
     # ------------------------------------------------------------------ generation
     def exhaustive_refs(self, maxlen, segs):
@@ -623,7 +731,7 @@ class C07(Property):
             return rng.choice(NONCANON_QUERIES)
         # random pairs over few keys: repetitions, valueless and empty-valued keys, any order
         n = rng.choice([1, 2, 2, 3, 3, 4, 6])
-        return '&'.join(rng.choice(['k', 'j', 'K', 'a.b']) + rng.choice(['', '=', '=1', '=2', '=v-w'])
+        return '&'.join(rng.choice(['k', 'j', 'K', 'a.b', 'p/q', '?']) + rng.choice(['', '=', '=1', '=2', '=v-w', '=/x?y:z@'])
                         for _ in range(n))
 
     def random_base(self, rng):
@@ -701,7 +809,8 @@ class C07(Property):
     def line(self, case):
         if not in_model_domain(case['base']) or not all(in_model_domain(r) for r in case['refs']):
             return None
-        return ' '.join(['nav', enc_components(case['base'])] + [enc_components(r) for r in case['refs']])
+        api = ',A' if case.get('as_url') == 2 else ''
+        return ' '.join(['nav', enc_components(case['base'])] + [enc_components(r) + api for r in case['refs']])
 
     # ------------------------------------------------------------------ implementation
     @staticmethod
@@ -798,7 +907,7 @@ class C07(Property):
             if 'exc' in d:
                 return 'X' + d['exc']
             if d['host']:
-                return 'T' + d['text']
+                return 'T' + pct_norm(d['text'])     # (no component of the model's domain contains a '%')
             # without a host the text is not compared (how to_text() writes an empty authority is property
             # C06's business): the public components instead
             return 'C' + '|'.join([d['scheme'] or '', d['user'] or '', d['pw'] or '', str(d['port'] or 0), d['path'],
@@ -873,6 +982,10 @@ class C07(Property):
                 return Failure('raises', 'navigate(%r) from %r raised %s' % (compose(r), cur, gd['exc']))
             got = gd['text']
             rt = compose(r)
+            if case.get('as_url') == 2 and not own_pairs(full(r)['query']):
+                # the object handed to navigate() was parsed WITHOUT a query component and received no parameter
+                # through the API: it is the reference without '?', whatever the case dictionary spells
+                rt = compose(dict(full(r), query=None))
             # once a step falls outside the statement's domain the rest of the history is not judged against
             # the RFC (the implementation's text need not parse back to the object it came from)
             kind = self.step_in_domain(cur, rt) if synced else None
